@@ -132,6 +132,40 @@ def apply_op(real_sf, model_sf, op, strings, lib, fmt):
     the op was skipped as ill-formed (after shrinking)."""
     name = op["op"]
     # ---- chart-list operations (simfile level)
+    if name in ("charts_append", "charts_insert", "charts_replace") and \
+            op["chart"].get("from") == "copyof":
+        # a copy of a chart that is already there (copy / deepcopy / pickle round trip):
+        # whatever the library keeps on the instance travels with it
+        import copy as _copy
+        import pickle as _pickle
+        j = op["chart"].get("i", 0)
+        if not (0 <= j < len(model_sf.charts)):
+            op = dict(op, chart={"from": "blank"})
+        else:
+            how = op["chart"].get("how", "deepcopy")
+            src = real_sf.charts[j]
+            if how == "same":
+                rc = src                       # one chart object at two positions of the list
+            elif how == "copy" and not isinstance(model_sf.charts[j], RefSMChart):
+                rc = _copy.copy(src)
+            elif how == "pickle":
+                rc = _pickle.loads(_pickle.dumps(src))
+            else:
+                rc = _copy.deepcopy(src)
+            mc = model_sf.charts[j] if how == "same" else _copy.deepcopy(model_sf.charts[j])
+            if name == "charts_append":
+                real_sf.charts.append(rc)
+                model_sf.charts.append(mc)
+            elif name == "charts_insert":
+                real_sf.charts.insert(op["pos"], rc)
+                model_sf.charts.insert(op["pos"], mc)
+            else:
+                i = op["i"]
+                if not (0 <= i < len(model_sf.charts)):
+                    return None
+                real_sf.charts[i] = rc
+                model_sf.charts[i] = mc
+            return ["ok", None], ["ok", None]
     if name == "charts_append":
         rc, mc = build_chart(op["chart"], fmt, strings, lib)
         real_sf.charts.append(rc)
